@@ -26,7 +26,9 @@ import (
 	"errors"
 	"fmt"
 	"io"
+	"os"
 	"strings"
+	"time"
 
 	"github.com/talostrading/sonic"
 	"github.com/talostrading/sonic/codec/websocket"
@@ -233,6 +235,14 @@ func wsRun(script []string, w *bufio.Writer) {
 	if wsIoc == nil {
 		wsIoc = sonic.MustIO()
 	}
+	// watchdog: a call that never returns (the scripted transport never blocks) ends the run; what was executed so far
+	// is flushed so that the orchestrator can name the script
+	dog := time.AfterFunc(20*time.Second, func() {
+		fmt.Fprintf(w, "< hang\n")
+		w.Flush()
+		os.Exit(3)
+	})
+	defer dog.Stop()
 	var (
 		ws      *websocket.Stream
 		ms      *memStream
